@@ -110,3 +110,81 @@ def _in_loop_with(g, starts, hit):
     order inside one iteration is what matters and the request comes first there"""
     back = engines.reachable_from(g, [hit])
     return any(s in back for s in starts)
+
+
+def rule_window_fit(ctx, prog, chk):
+    """WINDOW-FIT: a local table of constant extent N that a loop `i < (1 << (w - k))` fills (or frees) entry by entry holds
+    the largest window the function can choose: w only ever receives integer constants in the function, and
+    1 << (max w - k) <= N.  (A window ladder extended by one step over a table sized for the old maximum.)"""
+    n = 0
+    for fn in prog.all:
+        if not in_lib(fn):
+            continue
+        tables = {i: v for i, v in enumerate(fn.vars) if v.get("k") == "l" and v.get("dims") and len(v["dims"]) >= 1 and isinstance(v["dims"][0], int)}
+        if not tables:
+            continue
+        # integer locals that only ever receive constants
+        consts, other = {}, set()
+        for el in fn.all_elements():
+            for sub in ir.walk(fn, el.e):
+                tgt = rhs = None
+                if sub[0] == "d" and sub[2] is not None:
+                    tgt, rhs = sub[1], sub[2]
+                elif sub[0] == "=" and ir.strip_casts(sub[1])[0] == "v":
+                    tgt, rhs = ir.strip_casts(sub[1])[1], sub[2]
+                elif sub[0] == "o=" and ir.strip_casts(sub[2])[0] == "v":
+                    other.add(ir.strip_casts(sub[2])[1])
+                elif sub[0] == "u" and sub[1] in ("++", "--", "p++", "p--", "&") and ir.strip_casts(sub[2])[0] == "v":
+                    other.add(ir.strip_casts(sub[2])[1])
+                if tgt is not None:
+                    r = ir.peel(fn, rhs)
+                    if isinstance(r, list) and r and r[0] == "i" and isinstance(r[1], int):
+                        consts.setdefault(tgt, set()).add(r[1])
+                    else:
+                        other.add(tgt)
+        for b in fn.blocks.values():
+            t = getattr(b, "term", None)
+            if not t or t.get("c") is None or t.get("k") not in ("ForStmt", "WhileStmt"):
+                continue
+            c = ir.strip_casts(fn.resolve(t["c"]))
+            if not (isinstance(c, list) and c and c[0] == "b" and c[1] in ("<", "<=")):
+                continue
+            iv = ir.strip_casts(fn.resolve(c[2]))
+            sh = ir.strip_casts(fn.resolve(c[3]))
+            if not (isinstance(iv, list) and iv[0] == "v" and isinstance(sh, list) and sh and sh[0] == "b" and sh[1] == "<<"):
+                continue
+            one = ir.peel(fn, sh[2])
+            if not (isinstance(one, list) and one[0] == "i" and one[1] == 1):
+                continue
+            amt = ir.strip_casts(fn.resolve(sh[3]))
+            k = 0
+            wv = amt
+            if isinstance(amt, list) and amt and amt[0] == "b" and amt[1] == "-":
+                kk = ir.peel(fn, amt[3])
+                if not (isinstance(kk, list) and kk[0] == "i"):
+                    continue
+                k = kk[1]
+                wv = ir.strip_casts(fn.resolve(amt[2]))
+            if not (isinstance(wv, list) and wv[0] == "v" and wv[1] in consts and wv[1] not in other and fn.vars[wv[1]].get("k") == "l"):
+                continue
+            wmax = max(consts[wv[1]])
+            bound = (1 << (wmax - k)) if wmax - k >= 0 else 0
+            if c[1] == "<=":
+                bound += 1
+            # tables indexed by the loop variable in the body (elements whose line lies in the loop are not tracked: any use in the function)
+            for ti, tv in tables.items():
+                used = False
+                for el in fn.all_elements():
+                    for sub in ir.walk(fn, el.e):
+                        if sub[0] == "x" and ir.strip_casts(fn.resolve(sub[1])) == ["v", ti] and ir.strip_casts(fn.resolve(sub[2])) == iv:
+                            used = True
+                if not used:
+                    continue
+                n += 1
+                N = tv["dims"][0]
+                if bound > N:
+                    chk.fail("WINDOW-FIT", fn, tv["n"], "the loop bounded by `%s` runs to %d for the largest window the function chooses (%s = %d) while `%s` has %d entries: entries %d.. are outside the table" % (
+                        fn.fmt(c[3])[:30], bound, fn.vars[wv[1]]["n"], wmax, tv["n"], N, N), line=b.els[-1].line if b.els else fn.line)
+                else:
+                    chk.ok("WINDOW-FIT", fn, tv["n"], "1 << (%d - %d) = %d <= %d entries" % (wmax, k, bound, N), line=b.els[-1].line if b.els else fn.line)
+    return n
